@@ -187,11 +187,12 @@ def pushAll (pins : List Val) (links : List (Option Ref)) (mask : List Bool) (p 
   | 0, ins => ins
   | k + 1, ins => pushed pins links mask p o (pushAll pins links mask p o k ins) k
 
-/-- which inputs of the child at position `p` were assigned on the way into its run: the connected ones
-(if it got as far as fetching) and the ones a value was forwarded to -/
-def kidMask (links : List (Option Ref)) (mask : List Bool) (p : Nat) (o : Own) (fetched : Bool) : List Bool :=
+/-- which inputs of the child at position `p` were assigned on the way into its run: the ones its fetch assigned
+(`fm`: connected to an upstream output that holds data — a connection to NOT_DATA assigns nothing) and the ones
+a value was forwarded to -/
+def kidMask (links : List (Option Ref)) (mask : List Bool) (p : Nat) (o : Own) (fm : List Bool) : List Bool :=
   (List.range o.ins.length).map fun s =>
-    (fetched && (match o.inRefs[s]? with | some (some _) => true | _ => false)) ||
+    (fm[s]?).getD false ||
     (List.range links.length).any fun k =>
       (mask[k]?).getD false &&
         (match links[k]? with
@@ -208,7 +209,7 @@ def setIns (i : List Val) (mask : List Bool) : Node → Node
 def pushKids (pins : List Val) (links : List (Option Ref)) (mask : List Bool) (p : Nat) : List Node → List Node
   | [] => []
   | n :: ns =>
-    setIns (pushAll pins links mask p n.own links.length n.own.ins) (kidMask links mask p n.own false) n
+    setIns (pushAll pins links mask p n.own links.length n.own.ins) (kidMask links mask p n.own []) n
       :: pushKids pins links mask (p + 1) ns
 end
 
@@ -220,6 +221,14 @@ def fetchSlots (st : KS) : List (Option Ref) → List Val → List Val
      | none => v) :: fetchSlots st rs vs
   | none :: rs, v :: vs => v :: fetchSlots st rs vs
   | _, vs => vs
+
+/-- the slots a fetch assigns: connected to an upstream output that holds data -/
+def fetchedMask (st : KS) (o : Own) : List Bool :=
+  o.inRefs.map fun r? => match r? with
+    | some r => (match st.pre[r.pos]? with
+      | some n => !isNd n.own.out
+      | none => false)
+    | none => false
 
 inductive Prep
   | skip (ins : List Val)      -- not triggered
@@ -325,12 +334,12 @@ def runKids (cfg : Cfg) (fails : Nat → Bool) (mode : Mode) (pins : List Val) (
     match prep pins links mask st n.own with
     | .skip i =>
       runKids cfg fails mode pins links mask
-        (st.push n (setIns i (kidMask links mask st.pre.length n.own false) n) false false) rest
+        (st.push n (setIns i (kidMask links mask st.pre.length n.own []) n) false false) rest
     | .refuse i =>
       runKids cfg fails mode pins links mask
-        (st.push n (setIns i (kidMask links mask st.pre.length n.own true) n) false true) rest
+        (st.push n (setIns i (kidMask links mask st.pre.length n.own (fetchedMask st n.own)) n) false true) rest
     | .go i =>
-      let n' := run cfg fails mode i (kidMask links mask st.pre.length n.own true) n
+      let n' := run cfg fails mode i (kidMask links mask st.pre.length n.own (fetchedMask st n.own)) n
       runKids cfg fails mode pins links mask (st.push n n' (!n'.own.failed) n'.own.failed) rest
 end
 
